@@ -273,6 +273,54 @@ func runC11(w *vx.W) {
 			}
 		}
 	}
+	// ---- fault answers inside deviation-bounded read schedules (Env explorer, bound 2)
+	var caseNo int64
+	for _, s := range []namedStream{sMin12, sAct3, sChain2} {
+		for _, e := range []string{"Decode", "DecodeChained", "CheckIntegrity", "DecodeHeaderAndFileID"} {
+			for _, ob := range []bool{false, true} {
+				caseNo++
+				cn := caseNo
+				first := s.Members[0]
+				need := len(first)
+				switch e {
+				case "DecodeHeaderAndFileID":
+					need = int(first[0]) + 11
+				case "DecodeChained":
+					need = len(s.B) + 1 // reads until end of input
+				}
+				var res callResult
+				_, _, err := envExplore(s.B, ob, true, 2,
+					func(k int64) bool { return w.Mine(k + cn) },
+					func(r *envReader) { res = callEntry(e, r) },
+					func(x *envExec, choices []int) {
+						w.Eval(1)
+						w.Fam("env-fault-schedules", 1)
+						// position at which the first injected fault was answered (if any)
+						faultAt := -1
+						for _, p := range x.points {
+							if p.err == errInjected {
+								faultAt = p.pos + p.n
+								break
+							}
+						}
+						rep := c11Replay{s.Name, vx.Hex(s.B), e, fmt.Sprintf("schedule %v", choices), faultAt, ob}
+						if res.Panic != "" {
+							w.Violation("panic/"+e, fmt.Sprintf("%s on %s under read schedule %v: panic %s", e, s.Name, choices, res.Panic), rep)
+							return
+						}
+						if faultAt >= 0 && faultAt < need && res.Err == nil {
+							w.Violation("silent-success/"+e+"/env-fault", fmt.Sprintf("%s on %s: read schedule %v injects a fault at offset %d (frame needs %d bytes) but the call returns nil", e, s.Name, choices, faultAt, need), rep)
+						}
+						if faultAt < 0 && res.Err != nil {
+							w.Violation("spurious-error/"+e, fmt.Sprintf("%s on %s: fault-free read schedule %v fails: %v", e, s.Name, choices, res.Err), rep)
+						}
+					})
+				if err != nil {
+					w.HarnessError("C11 env %s/%s: %v", s.Name, e, err)
+				}
+			}
+		}
+	}
 	w.Sample(map[string]interface{}{"stream": sChain2.Name, "stream_hex": vx.Hex(sChain2.B), "kinds": kinds, "offsets": fmt.Sprintf("0..%d", len(sChain2.B)), "entries": entryNames})
 	_ = fit.V20
 }
